@@ -66,6 +66,10 @@ def run(F, R):
     counters_rule(F, R, 'O10')
     # O11: "its ring slot completely written" is relative to the size the device was told (C06.L3 queue_set arguments)
     from .C06 import registration_rule
+    # O14: "its descriptors completely written": the writers count descriptors by the list lengths, the iterator that feeds them yields
+    # one item per buffer (C01.F13)
+    from .C01 import buffer_iter_rule
+    buffer_iter_rule(F, R, 'O14')
     registration_rule(F, R, 'O11')
     # O12: the device reads the available index at the address it was told: transports' queue_set register traces (C10.M2 / C11.W3)
     transport_registration_rule(F, R, 'O12')
